@@ -58,6 +58,11 @@ where
 
     /// Inserts the `value` into the data structure.
     pub fn insert(&mut self, value: Value) {
+        // A value that is already present must keep its set, so only new values get
+        // a set of their own.
+        if self.reps.get(&value).is_some() {
+            return;
+        }
         self.reps.insert(&value.clone(), value);
     }
 
